@@ -1,8 +1,9 @@
 """C09 - genotype summary statistics are exact and mutually consistent.
 
-Every public summary method of DensePhasedGenotypeMatrix / DenseGenotypeMatrix (built directly and obtained
-through DenseUnphasedGenotyping.genotype) is called on seeded hostile matrices; the returned values are judged
-by the integer/Fraction reference model in pbmon/oracle/c09_popgen.py.
+Every public summary method of DensePhasedGenotypeMatrix / DenseGenotypeMatrix is called on seeded hostile matrices
+(family "mat": fresh objects; "hist": live objects along in-place operation histories; "derive": matrices returned by
+the library's structural operations; "gt": the outputs of all genotyping protocols with masks and inversion); the
+returned values are judged by the integer/Fraction reference model in pbmon/oracle/c09_popgen.py.
 """
 import numpy
 
@@ -19,6 +20,8 @@ CLAUSES = {
     "C09.projection": 50000,  # phased matrix and its unphased projection give the same answers
     "C09.dtype": 150000,       # requested dtypes honoured with equal values
     "C09.history": 50000,      # live objects: after every in-place change every statistic == definition on the CURRENT raw calls
+    "C09.derived": 25000,      # matrices returned by select/delete/insert/adjoin/concat/copy (+ in-place generic forms): class, ploidy, statistics
+    "C09.genotyping": 25000,   # every genotyping protocol x mask x invert: calls, labels, ploidy, statistics, masked phased == masked unphased
 }
 HOOKS_REQUIRED = [
     "repo-code",
@@ -31,6 +34,14 @@ HOOKS_REQUIRED = [
     "history step: in-place taxa reorder/sort/group", "history step: in-place variant reorder/sort/group",
     "history step: assignment through the mat setter", "history step: element assignment into mat",
     "history step: result object of select_*/delete_*", "history step: unchanged object queried again",
+    "derive step: select", "derive step: delete", "derive step: insert", "derive step: adjoin", "derive step: concat",
+    "derive step: copy", "derive step: inplace", "derive: insert behind the last position with a scalar index",
+    "derive: unphased source with ploidy != 2", "derive: phased source with nphase != 2",
+    "derive: source produced by a genotyping protocol",
+    "gt: DenseUnphasedGenotyping, unmasked protocol",
+    "gt: DenseMaskedUnphasedGenotyping, mask present, invert=False", "gt: DenseMaskedUnphasedGenotyping, mask present, invert=True",
+    "gt: DenseMaskedPhasedGenotyping, mask present, invert=False", "gt: DenseMaskedPhasedGenotyping, mask present, invert=True",
+    "gt: DenseMaskedUnphasedGenotyping, no mask on the matrix, invert=True", "gt: DenseMaskedPhasedGenotyping, no mask on the matrix, invert=True",
 ]
 RULE = ("seeded class-based matrices: ploidy 2 (65 %) or 1/3/4/6; ntaxa from {1,2,3,7,49,98,103,107,161}, from the sizes "
         "<= 200 where (1/(ploidy*n))*(ploidy*n) != 1.0, from 1..6, from 1..200 and (2 %) from 201..1500; raw calls C-ordered, "
@@ -45,7 +56,16 @@ RULE = ("seeded class-based matrices: ploidy 2 (65 %) or 1/3/4/6; ntaxa from {1,
         "remove_/append_/reorder_/sort_/group_ taxa and variants, assignment through the mat setter, element writes into "
         "obj.mat (locus fixed / lost, taxon row, single call), select_*/delete_*/copy/deepcopy result objects and plain "
         "re-queries; after every step all statistics (and codings) are queried again, a quarter of them first under a "
-        "requested dtype, and judged against the oracle evaluated on the object's current mat.")
+        "requested dtype, and judged against the oracle evaluated on the object's current mat.  Derived matrices "
+        "(C09.derived): unphased sources of ploidy 1,2,3,4,6 and phased sources with 1-4 (6) copies, 1-24 (or 49) taxa, 1-10 loci, "
+        "random subsets of the taxa and of all nine variant label fields; chains of 1-3 operations from select/delete/"
+        "insert (position 0, inner, behind the last; scalar python/numpy index or index sequence; 1-3 rows; array or matrix "
+        "object)/adjoin/concat (2-3 matrices, source first or second)/copy, deepcopy, copy.copy, copy.deepcopy/in-place "
+        "generic remove, append, incorp and incorp_taxa/incorp_vrnt on a deep copy; taxa or variant axis, axis-specific or "
+        "generic form with the axis counted from the front or from the end.  Genotyping (C09.genotyping): phased matrices "
+        "(ploidy 1-4) with random label subsets, grouped or ungrouped variants, vrnt_mask absent or present (all-true, "
+        "all-false, prefix, single true, single false, alternating, random) through DenseUnphasedGenotyping and "
+        "Dense Masked Unphased/Phased Genotyping with invert False and True.")
 ASSUME = [
     "alleles are coded 0/1 per chromosome copy (phased) or 0..ploidy per taxon (unphased); other values are out of domain",
     "meh: (ploidy/m)*sum p(1-p) (2pq averaged over loci for diploids); for ploidy != 2 the gene-diversity reading "
@@ -63,6 +83,10 @@ ASSUME = [
     "correctness is property C03); an operation that raises is counted under 'raised' and the (unchanged) object is "
     "judged again; a history stops when an operation leaves something that is not a valid genotype matrix; writing "
     "elements of obj.mat is treated as a legitimate way of changing the raw calls",
+    "derived-matrix and genotyping clauses: an operation that raises is counted under 'raised' (its own correctness, i.e. "
+    "which calls end up where, is property C03) except the genotyping protocols, which must return on a valid phased "
+    "matrix; the variant set of a masked protocol is the one its docstring states (mask True; invert=True: mask False; no "
+    "mask: all variants); requests selecting no variant are not run (no statistics are defined for zero loci)",
     "attribution: when an object's afreq() (resp. gtcount()) is itself reported in a case, statistics of the same object "
     "that are exactly what follows from the wrong value (afixed/apoly/maf/complement, resp. gtfreq), requested-dtype "
     "variants equal to the reported default answer, and phased-vs-unphased mismatches on an already reported statistic "
@@ -503,7 +527,7 @@ FLOATS = {"tafreq", "afreq", "maf", "meh", "gtfreq", "mat_asformat{-1,m,1}"}
 
 
 def judge_projection(ctx, SP, SU, R, iN, iP, W, coords):
-    J = "C09.projection"
+    J = SP.clause or "C09.projection"
     for name in STATS + ["mat_asformat" + f for f in FORMATS]:
         if name not in SP.res or name not in SU.res:
             continue   # a raising side is already a C09.returns violation
@@ -694,18 +718,18 @@ class BufferCtx:
         self.held.append((clause, site, rel, icls, what, witness, coords))
 
 
-def judge_state(ctx, obj, kind, P, phased, label, g, W, trace, coords):
+def judge_state(ctx, obj, kind, P, phased, label, g, W, trace, coords, clause="C09.history", fam="history"):
     """All statistics of the live object against the oracle on its current raw calls.  A deviation is a *history*
     finding only when a fresh object built from the same raw calls answers correctly (control run, made only when
     something deviated); what the fresh object gets wrong as well is reported by the stateless clauses under their keys."""
     raw = obj.mat.copy()
     R = O.reference(raw.tolist()) if phased else O.reference_unphased(raw.tolist(), P)
     S = Subject(kind, obj, raw)
-    S.clause, S.icls = "C09.history", label
+    S.clause, S.icls = clause, label
     w = dict(W, history=list(trace), **{"current mat": raw})
     buf = BufferCtx(ctx)
     run_subject(buf, S, R, g, label, label, w, coords, history=True)
-    ctx.sumnote("history states judged")
+    ctx.sumnote("%s states judged" % fam)
     if buf.held:
         stateless_bad = set()
         try:
@@ -713,18 +737,18 @@ def judge_state(ctx, obj, kind, P, phased, label, g, W, trace, coords):
             S2 = Subject("fresh %s with the same raw calls (control)" % type(obj).__name__, fresh, raw.copy())
             iN = "ploidy*n a power of two" if is_pow2(R.N) else "ploidy*n not a power of two"
             iP = "diploid" if P == 2 else "non-diploid"
-            run_subject(ctx, S2, R, ctx.rng("hist-control", coords[0], len(trace)), iN, iP, w, coords)
+            run_subject(ctx, S2, R, ctx.rng(fam + "-control", coords[0], len(trace)), iN, iP, w, coords)
             stateless_bad = S2.bad | S2.failed_calls
-            ctx.sumnote("history control runs on a fresh object")
+            ctx.sumnote("%s control runs on a fresh object" % fam)
         except Exception as e:
-            ctx.raised("history: control construction", e)
+            ctx.raised(fam + ": control construction", e)
         for rec in buf.held:
             meth = rec[1].split("~")[0].split(".")[-1]
             if any(b == meth or b.startswith(meth + "{") for b in stateless_bad):
-                ctx.sumnote("history deviations also shown by a fresh object (reported by the stateless clauses)")
+                ctx.sumnote("%s deviations also shown by a fresh object (reported by the stateless clauses)" % fam)
             elif meth == "gtfreq" and "gtcount" in S.reported:
                 ctx.sumnote("gtfreq deviates only as a consequence of the reported (stale) gtcount")
-            elif rec[0] != "C09.history":      # a call that raised on the live object only
+            elif rec[0] != clause:      # a call that raised on the live object only
                 ctx.violation(*rec[:4], what=rec[4], witness=rec[5], coords=rec[6])
             else:   # one key per statistic and kind of change; the specific relation that failed goes into the text
                 ctx.violation(rec[0], rec[1], "== definition evaluated on the object's current raw calls", rec[3],
@@ -891,7 +915,412 @@ def one_history(ctx, c):
                 judge_state(ctx, o2, "%s [%s]" % (type(o2).__name__, lab2), P, phased, lab2, g, W, trace, coords)
 
 
-FAMILIES = {"mat": (one_case, 9000, 240000), "hist": (one_history, 1500, 20000)}
+# ------------------------------------------------------------------ shared: fully labelled source objects
+VFIELDS = ["vrnt_chrgrp", "vrnt_phypos", "vrnt_name", "vrnt_genpos", "vrnt_xoprob", "vrnt_hapgrp", "vrnt_hapalt", "vrnt_hapref", "vrnt_mask"]
+TFIELDS = ["taxa", "taxa_grp"]
+
+
+def gen_vlabels(g, m, tag="m", fields=VFIELDS):
+    """Variant labels of length ``m`` for the named fields (values distinct per position, so restrictions are decidable)."""
+    out = {}
+    for f in fields:
+        if f == "vrnt_chrgrp":
+            out[f] = numpy.sort(g.integers(1, 4, m)).astype("int64")
+        elif f == "vrnt_phypos":
+            out[f] = (numpy.sort(g.permutation(10 * m + 5)[:m]) + 1).astype("int64")
+        elif f == "vrnt_name":
+            out[f] = numpy.array(["%s%d_%d" % (tag, j, int(g.integers(1000))) for j in range(m)], dtype=object)
+        elif f == "vrnt_genpos":
+            out[f] = numpy.cumsum(g.uniform(0.001, 0.3, m))
+        elif f == "vrnt_xoprob":
+            out[f] = g.uniform(0.0, 0.5, m)
+        elif f == "vrnt_hapgrp":
+            out[f] = g.integers(0, 5, m).astype("int64")
+        elif f == "vrnt_hapalt":
+            out[f] = numpy.array([["A", "C", "G", "T"][int(v)] for v in g.integers(0, 4, m)], dtype=object)
+        elif f == "vrnt_hapref":
+            out[f] = numpy.array([["A", "C", "G", "T"][int(v)] for v in g.integers(0, 4, m)], dtype=object)
+        elif f == "vrnt_mask":
+            out[f] = gen_mask(g, m)
+    return out
+
+
+def gen_mask(g, m):
+    """Boolean variant masks, mostly asymmetric (a mirrored or complemented reading gives another variant set)."""
+    r = g.random()
+    if m == 1:
+        return numpy.array([g.random() < 0.5])
+    if r < 0.10:
+        return numpy.ones(m, dtype=bool)
+    if r < 0.18:
+        return numpy.zeros(m, dtype=bool)
+    if r < 0.33:
+        k = int(g.integers(1, m)); a = numpy.zeros(m, dtype=bool); a[:k] = True; return a          # prefix
+    if r < 0.43:
+        a = numpy.zeros(m, dtype=bool); a[int(g.integers(m))] = True; return a                       # single genotyped variant
+    if r < 0.53:
+        a = numpy.ones(m, dtype=bool); a[int(g.integers(m))] = False; return a                       # single masked-out variant
+    if r < 0.63:
+        return (numpy.arange(m) % 2 == int(g.integers(2)))                                            # alternating
+    return g.random(m) < g.uniform(0.2, 0.8)
+
+
+def gen_tlabels(g, n, tag="t", fields=TFIELDS):
+    out = {}
+    if "taxa" in fields:
+        out["taxa"] = numpy.array(["%s%03d_%d" % (tag, i, int(g.integers(1000))) for i in range(n)], dtype=object)
+    if "taxa_grp" in fields:
+        out["taxa_grp"] = g.integers(0, 3, n).astype("int64")
+    return out
+
+
+def make_obj(phased, P, calls, labels):
+    from pybrops.popgen.gmat.DensePhasedGenotypeMatrix import DensePhasedGenotypeMatrix
+    from pybrops.popgen.gmat.DenseGenotypeMatrix import DenseGenotypeMatrix
+    kw = {k: (v.copy() if isinstance(v, numpy.ndarray) else v) for k, v in labels.items()}
+    return DensePhasedGenotypeMatrix(calls.copy(), **kw) if phased else DenseGenotypeMatrix(calls.copy(), ploidy=P, **kw)
+
+
+def same_labels(a, b):
+    """Exact equality of two label arrays (None == None)."""
+    if a is None or b is None:
+        return a is None and b is None
+    a = numpy.asarray(a); b = numpy.asarray(b)
+    if a.shape != b.shape:
+        return False
+    if a.dtype.kind == "f" or b.dtype.kind == "f":
+        return bool(numpy.array_equal(a.astype(float), b.astype(float)))
+    return a.tolist() == b.tolist()
+
+
+# ------------------------------------------------------------------ C09.derived: matrices made by the library's structural operations
+# A matrix returned by select/delete/insert/adjoin/concat/copy (taxa and variant axes, axis-specific and generic forms,
+# every insertion position) or left behind by the in-place generic forms must still be a genotype matrix of the source's
+# class and ploidy, and its statistics must be the textbook values of the calls it holds.  Whether the operation put the
+# right calls in the right place is property C03; an operation that raises is counted under 'raised'.
+D_OPS = ["select", "delete", "insert", "adjoin", "concat", "copy", "inplace"]
+D_OPW = numpy.array([0.13, 0.13, 0.30, 0.12, 0.12, 0.08, 0.12])
+
+
+def index_forms(g, pos, size):
+    """Spellings of one insertion position / of a selection."""
+    r = g.random()
+    if r < 0.45:
+        return int(pos), "scalar index"
+    if r < 0.60:
+        return numpy.int64(pos), "scalar index"
+    if r < 0.80:
+        return [int(pos)], "index sequence"
+    return numpy.array([pos], dtype="int64"), "index sequence"
+
+
+def one_derive(ctx, c):
+    import copy as _copy
+    repo_code(ctx)
+    g = ctx.rng("derive", c)
+    phased = g.random() < 0.4
+    P = int(g.choice([1, 2, 3, 4])) if g.random() < 0.8 else int(g.choice([2, 6]))
+    r = g.random()
+    n = int(g.choice([1, 2, 3, 7, 49])) if r < 0.35 else int(g.integers(1, 25))
+    m = int(g.integers(1, 11))
+    tf = [f for f in TFIELDS if g.random() < 0.7]
+    vf = [f for f in VFIELDS if g.random() < 0.5]
+    coords = [c, "derive"]
+    calls = gen_block(g, P, n, m, phased)
+    origin = "built directly"
+    try:
+        labels = dict(gen_tlabels(g, n, fields=tf), **gen_vlabels(g, m, fields=vf))
+        if not phased and g.random() < 0.3:      # unphased source produced by one of the library's genotyping protocols
+            from pybrops.breed.prot.gt.DenseUnphasedGenotyping import DenseUnphasedGenotyping
+            from pybrops.breed.prot.gt.DenseMaskedUnphasedGenotyping import DenseMaskedUnphasedGenotyping
+            ph = make_obj(True, P, gen_block(g, P, n, m, True), labels)
+            mk = labels.get("vrnt_mask")
+            if mk is not None and 0 < int(mk.sum()) < m and g.random() < 0.6:
+                inv = bool(g.random() < 0.5)
+                src = DenseMaskedUnphasedGenotyping(invert=inv).genotype(ph); origin = "DenseMaskedUnphasedGenotyping(invert=%s)" % inv
+            else:
+                src = DenseUnphasedGenotyping().genotype(ph); origin = "DenseUnphasedGenotyping"
+            calls = src.mat.copy()
+            ctx.hook("derive: source produced by a genotyping protocol")
+        else:
+            src = make_obj(phased, P, calls, labels)
+        if g.random() < 0.25:
+            for grp in ("group_taxa", "group_vrnt"):
+                try:
+                    getattr(src, grp)()
+                except Exception:
+                    pass
+            origin += ", grouped"
+        if not raw_ok(src, P, phased):
+            ctx.sumnote("derive: source is not a valid genotype matrix (not run)")
+            return
+    except Exception as e:
+        ctx.raised("derive: construction", e)
+        return
+    cname = type(src).__name__
+    ctx.case("derive/%s/ploidy %d" % ("phased" if phased else "unphased", P), P, calls, phased)
+    W = {"ploidy": P, "source class": cname, "source origin": origin, "source ntaxa": n, "source nvrnt": m, "labels": tf + vf}
+    if c % 97 == 0:
+        ctx.sample({"family": "derive", "origin": origin, "class": cname, "ploidy": P, "ntaxa": n, "nvrnt": m, "labels": tf + vf, "calls": calls.tolist()})
+    trace = []
+    if P != 2 and not phased:
+        ctx.hook("derive: unphased source with ploidy != 2")
+    if phased and P != 2:
+        ctx.hook("derive: phased source with nphase != 2")
+    for step in range(int(g.integers(1, 4))):
+        n, m = src.ntaxa, src.nvrnt
+        ta, va = src.taxa_axis, src.vrnt_axis
+        op = D_OPS[int(g.choice(len(D_OPS), p=D_OPW))]
+        onT = g.random() < 0.6                       # taxa axis or variant axis
+        size = n if onT else m
+        axn = "taxa" if onT else "vrnt"
+        axis = (ta if onT else va)
+        if g.random() < 0.3:
+            axis = axis - src.mat.ndim               # the same axis counted from the end
+        generic = g.random() < 0.4
+        if op in ("select", "delete") and size < 2:
+            op = "insert"
+
+        def block(k):
+            b = gen_block(g, P, k if onT else n, m if onT else k, phased)
+            lab = gen_tlabels(g, k, tag="i%d" % step, fields=[f for f in TFIELDS if getattr(src, f) is not None]) if onT else \
+                gen_vlabels(g, k, tag="i%d" % step, fields=[f for f in VFIELDS if getattr(src, f) is not None])
+            return b, lab
+
+        out = None; icls = op; meth = op; desc = op
+        try:
+            if op == "select":
+                ix = numpy.sort(g.permutation(size)[: int(g.integers(1, size + 1))]) if g.random() < 0.7 else g.integers(0, size, int(g.integers(1, size + 2)))
+                if g.random() < 0.2:
+                    ix = ix - size                   # the same positions counted from the end
+                meth = "select" if generic else "select_" + axn
+                desc = "%s(%s%s)" % (meth, ix.tolist(), ", axis=%d" % axis if generic else "")
+                out = src.select(ix, axis=axis) if generic else getattr(src, meth)(ix)
+                icls = "result of select (%s axis)" % axn
+            elif op == "delete":
+                ix = sel_indices(g, size)
+                if isinstance(ix, (int, numpy.ndarray)) and g.random() < 0.2:
+                    ix = ix - size
+                meth = "delete" if generic else "delete_" + axn
+                desc = "%s(%s%s)" % (meth, ix.tolist() if isinstance(ix, numpy.ndarray) else ix, ", axis=%d" % axis if generic else "")
+                out = src.delete(ix, axis=axis) if generic else getattr(src, meth)(ix)
+                icls = "result of delete (%s axis)" % axn
+            elif op == "insert":
+                where = g.random()
+                pos = 0 if where < 0.25 else (size if where < 0.60 else int(g.integers(0, size + 1)))
+                pcls = "at position 0" if pos == 0 else ("behind the last position" if pos == size else "at an inner position")
+                k = 1 if g.random() < 0.5 else int(g.integers(1, 4))
+                ix, form = index_forms(g, pos, size)
+                if form == "index sequence" and k > 1:
+                    ix = [int(pos)] * k if isinstance(ix, list) else numpy.array([pos] * k, dtype="int64")
+                b, lab = block(k)
+                asobj = g.random() < 0.3
+                vals = make_obj(phased, P, b, lab) if asobj else b
+                meth = "insert" if generic else "insert_" + axn
+                desc = "%s(%r, <%d %s%s>%s)" % (meth, ix if not isinstance(ix, numpy.ndarray) else ix.tolist(), k, axn,
+                                                 " as matrix object" if asobj else "", ", axis=%d" % axis if generic else "")
+                kw = {} if asobj else lab
+                out = src.insert(ix, vals, axis=axis, **kw) if generic else getattr(src, meth)(ix, vals, **kw)
+                icls = "result of insert %s, %s (%s axis)" % (pcls, form, axn)
+                if pos == size and form == "scalar index":
+                    ctx.hook("derive: insert behind the last position with a scalar index")
+            elif op == "adjoin":
+                k = int(g.integers(1, 4)); b, lab = block(k)
+                asobj = g.random() < 0.3
+                vals = make_obj(phased, P, b, lab) if asobj else b
+                meth = "adjoin" if generic else "adjoin_" + axn
+                desc = "%s(<%d %s%s>%s)" % (meth, k, axn, " as matrix object" if asobj else "", ", axis=%d" % axis if generic else "")
+                kw = {} if asobj else lab
+                out = src.adjoin(vals, axis=axis, **kw) if generic else getattr(src, meth)(vals, **kw)
+                icls = "result of adjoin (%s axis)" % axn
+            elif op == "concat":
+                others = []
+                for _ in range(int(g.integers(1, 3))):
+                    b, lab = block(int(g.integers(1, 4)))
+                    keep = {f: getattr(src, f) for f in (VFIELDS if onT else TFIELDS) if getattr(src, f) is not None}
+                    others.append(make_obj(phased, P, b, dict(lab, **keep)))
+                mats = [src] + others
+                if g.random() < 0.3:
+                    mats = others[:1] + [src] + others[1:]
+                meth = "concat" if generic else "concat_" + axn
+                desc = "%s(%d matrices%s)" % (meth, len(mats), ", axis=%d" % axis if generic else "")
+                out = type(src).concat(mats, axis=axis) if generic else getattr(type(src), meth)(mats)
+                icls = "result of concat (%s axis)" % axn
+            elif op == "copy":
+                how = ["copy()", "deepcopy()", "copy.copy", "copy.deepcopy"][int(g.integers(4))]
+                meth = "__copy__" if how in ("copy()", "copy.copy") else "__deepcopy__"
+                desc = how
+                out = {"copy()": lambda: src.copy(), "deepcopy()": lambda: src.deepcopy(), "copy.copy": lambda: _copy.copy(src),
+                       "copy.deepcopy": lambda: _copy.deepcopy(src)}[how]()
+                icls = "result of copy/deepcopy"
+            else:   # in-place forms not driven by the history family: generic remove/append/incorp and incorp_*
+                live = src.deepcopy()
+                which = ["remove", "append", "incorp", "incorp_axis"][int(g.integers(4))]
+                if which == "remove" and size < 2:
+                    which = "append"
+                if which == "remove":
+                    ix = sel_indices(g, size); meth = "remove"; desc = "remove(%s, axis=%d) in place" % (ix.tolist() if isinstance(ix, numpy.ndarray) else ix, axis)
+                    live.remove(ix, axis=axis)
+                elif which == "append":
+                    b, lab = block(int(g.integers(1, 4))); meth = "append"; desc = "append(<block>, axis=%d) in place" % axis
+                    live.append(b, axis=axis, **lab)
+                else:
+                    where = g.random()
+                    pos = 0 if where < 0.25 else (size if where < 0.60 else int(g.integers(0, size + 1)))
+                    k = 1 if g.random() < 0.5 else int(g.integers(1, 4))
+                    ix, form = index_forms(g, pos, size)
+                    if form == "index sequence" and k > 1:
+                        ix = [int(pos)] * k if isinstance(ix, list) else numpy.array([pos] * k, dtype="int64")
+                    b, lab = block(k)
+                    if which == "incorp":
+                        meth = "incorp"; desc = "incorp(%r, <%d %s>, axis=%d) in place" % (ix if not isinstance(ix, numpy.ndarray) else ix.tolist(), k, axn, axis)
+                        live.incorp(ix, b, axis=axis, **lab)
+                    else:
+                        meth = "incorp_" + axn; desc = "%s(%r, <%d %s>) in place" % (meth, ix if not isinstance(ix, numpy.ndarray) else ix.tolist(), k, axn)
+                        getattr(live, meth)(ix, b, **lab)
+                out = live
+                icls = "object after in-place generic remove/append/incorp (%s axis)" % axn
+        except Exception as e:
+            ctx.raised("derive: " + meth, e)
+            trace.append(desc + " [raised %s]" % type(e).__name__)
+            continue
+        trace.append(desc)
+        ctx.hook("derive step: " + op)
+        site = site_of(src, meth)
+        w = dict(W, history=list(trace), got_type=type(out).__name__, got_ploidy=getattr(out, "ploidy", None),
+                 got_mat=getattr(out, "mat", None))
+        D = "C09.derived"
+        ok = ctx.check(D, type(out) is type(src), site, "result is a genotype matrix of the source's class", icls, witness=w, coords=coords)
+        if ok:
+            ok = ctx.check(D, getattr(out, "ploidy", None) == P and (not phased or out.nphase == P), site,
+                           "derived matrix reports the source's ploidy", icls,
+                           what="%s: %s of a %s with ploidy %d returned a matrix reporting ploidy %r (all its frequencies, meh and genotype "
+                                "classes are then computed for the wrong ploidy)" % (site, desc, cname, P, getattr(out, "ploidy", None)),
+                           witness=w, coords=coords)
+        if not ok:
+            break
+        if not raw_ok(out, P, phased):
+            ctx.sumnote("derive stopped: operation returned something that is not a valid genotype matrix (not a C09 matter)")
+            break
+        judge_state(ctx, out, "%s [%s]" % (cname, icls), P, phased, icls, g, W, trace, coords, clause=D, fam="derive")
+        src = out
+
+
+# ------------------------------------------------------------------ C09.genotyping: every genotyping protocol
+# Dense[Masked][Un]phasedGenotyping with masks present/absent and invert False/True: the projection holds the calls,
+# labels and ploidy of the phased matrix restricted to the documented variant set (mask True, with invert=True mask False,
+# all variants when there is no mask); its statistics are the textbook values of those calls; the masked phased and masked
+# unphased projections agree with each other.
+def one_gt(ctx, c):
+    from pybrops.popgen.gmat.DensePhasedGenotypeMatrix import DensePhasedGenotypeMatrix
+    from pybrops.popgen.gmat.DenseGenotypeMatrix import DenseGenotypeMatrix
+    from pybrops.breed.prot.gt.DenseUnphasedGenotyping import DenseUnphasedGenotyping
+    from pybrops.breed.prot.gt.DenseMaskedUnphasedGenotyping import DenseMaskedUnphasedGenotyping
+    from pybrops.breed.prot.gt.DenseMaskedPhasedGenotyping import DenseMaskedPhasedGenotyping
+    repo_code(ctx)
+    g = ctx.rng("gt", c)
+    P = 2 if g.random() < 0.55 else int(g.choice([1, 3, 4]))
+    r = g.random()
+    n = int(g.choice([1, 2, 3, 7, 49])) if r < 0.35 else int(g.integers(1, 25))
+    m = int(g.integers(1, 13))
+    has_mask = g.random() < 0.8
+    tf = [f for f in TFIELDS if g.random() < 0.7]
+    vf = [f for f in VFIELDS[:-1] if g.random() < 0.6] + (["vrnt_mask"] if has_mask else [])
+    calls = gen_block(g, P, n, m, True)
+    labels = dict(gen_tlabels(g, n, fields=tf), **gen_vlabels(g, m, fields=vf))
+    coords = [c, "gt"]
+    try:
+        ph = make_obj(True, P, calls, labels)
+        grouped = False
+        if "vrnt_chrgrp" in labels and g.random() < 0.5:
+            ph.group_vrnt(); grouped = True
+            calls = ph.mat.copy(); labels = {f: getattr(ph, f).copy() for f in labels}
+    except Exception as e:
+        ctx.raised("gt: construction", e)
+        return
+    mask = labels.get("vrnt_mask")
+    ctx.case("gt/ploidy %d/%s" % (P, "mask" if has_mask else "no mask"), P, calls, mask if mask is not None else "nomask")
+    W = {"ploidy": P, "ntaxa": n, "nvrnt": m, "labels": tf + vf, "vrnt_mask": mask, "variants grouped": grouped, "phased calls": calls}
+    if c % 97 == 0:
+        ctx.sample({"family": "gt", "ploidy": P, "ntaxa": n, "nvrnt": m, "labels": tf + vf, "vrnt_mask": None if mask is None else mask.tolist(),
+                    "calls": calls.tolist()})
+    G = "C09.genotyping"
+    protos = [("DenseUnphasedGenotyping", lambda: DenseUnphasedGenotyping(), False, None)]
+    for inv in (False, True):
+        protos.append(("DenseMaskedUnphasedGenotyping", (lambda inv=inv: DenseMaskedUnphasedGenotyping(invert=inv)), False, inv))
+        protos.append(("DenseMaskedPhasedGenotyping", (lambda inv=inv: DenseMaskedPhasedGenotyping(invert=inv)), True, inv))
+    results = {}
+    for pname, mk, out_phased, inv in protos:
+        if inv is None or mask is None:
+            keep = numpy.arange(m)
+            icls = "unmasked protocol" if inv is None else "no mask on the matrix, invert=%s" % inv
+        else:
+            keep = numpy.array([j for j in range(m) if bool(mask[j]) != inv], dtype="int64")
+            icls = "mask present, invert=%s" % inv
+        site = pname + ".genotype"
+        if keep.size == 0:
+            ctx.sumnote("genotyping requests that select no variant (not run)")
+            continue
+        ctx.hook("gt: %s, %s" % (pname, icls))
+        w = dict(W, protocol=pname, invert=inv, documented_variant_set=keep)
+        ctx.ok(G)
+        try:
+            proto = mk()
+            how = g.random()
+            if inv is not None and how < 0.25:       # invert chosen through the property after construction
+                proto = type(proto)(invert=not inv); proto.invert = inv
+            elif how < 0.45:                          # a protocol object that has already genotyped another matrix
+                m2 = int(g.integers(1, 9)); n2 = int(g.integers(1, 6))
+                proto.genotype(make_obj(True, P, gen_block(g, P, n2, m2, True), gen_vlabels(g, m2, fields=["vrnt_mask"])))
+            out = proto.genotype(ph)
+        except Exception as e:
+            ctx.violation(G, site, "raised %s" % type(e).__name__, icls, what="%s (%s) raised %s: %s" % (site, icls, type(e).__name__, str(e)[:160]),
+                          witness=w, coords=coords)
+            continue
+        ok = ctx.check(G, numpy.array_equal(ph.mat, calls) and all(same_labels(getattr(ph, f), labels[f]) for f in labels), site,
+                       "leaves the phased matrix unchanged", icls, witness=w, coords=coords)
+        want_t = DensePhasedGenotypeMatrix if out_phased else DenseGenotypeMatrix
+        exp = calls[:, :, keep] if out_phased else calls[:, :, keep].sum(0, dtype="int8")
+        w = dict(w, got_mat=getattr(out, "mat", None), expected_mat=exp)
+        ok = ctx.check(G, type(out) is want_t, site, "result class", icls, witness=dict(w, got=type(out).__name__), coords=coords)
+        if not ok:
+            continue
+        ok = ctx.check(G, out.ploidy == P, site, "ploidy preserved", icls, witness=dict(w, got=out.ploidy), coords=coords)
+        ok &= ctx.check(G, isinstance(out.mat, numpy.ndarray) and out.mat.shape == exp.shape and numpy.array_equal(out.mat, exp), site,
+                        "calls == phased calls restricted to the documented variant set" + ("" if out_phased else ", summed over copies"), icls,
+                        what="%s (%s): the projection does not hold the calls of the documented variant set %s" % (site, icls, keep.tolist()),
+                        witness=w, coords=coords)
+        badf = [f for f in TFIELDS if not same_labels(getattr(out, f), labels.get(f))]
+        badf += [f for f in VFIELDS if not same_labels(getattr(out, f), labels[f][keep] if f in labels else None)]
+        ok &= ctx.check(G, not badf, site, "labels == phased labels restricted to the documented variant set", icls,
+                        witness=dict(w, fields=badf, got={f: getattr(out, f) for f in badf}), coords=coords)
+        # variant group metadata, when present, must describe the projection's own vrnt_chrgrp
+        if getattr(out, "vrnt_chrgrp_name", None) is not None and out.vrnt_chrgrp is not None:
+            cg = numpy.asarray(out.vrnt_chrgrp)
+            try:
+                names = numpy.asarray(out.vrnt_chrgrp_name).tolist(); st = numpy.asarray(out.vrnt_chrgrp_stix).tolist()
+                sp = numpy.asarray(out.vrnt_chrgrp_spix).tolist(); ln = numpy.asarray(out.vrnt_chrgrp_len).tolist()
+                good = sorted(names) == sorted(set(cg.tolist())) and all(
+                    b - a == l and l > 0 and cg[a:b].tolist() == [nm] * l for nm, a, b, l in zip(names, st, sp, ln)) and sum(ln) == cg.size
+            except Exception:
+                good = False
+            ctx.check(G, good, site, "variant group metadata describes the projection's own vrnt_chrgrp", icls,
+                      witness=dict(w, vrnt_chrgrp=cg, name=out.vrnt_chrgrp_name, stix=out.vrnt_chrgrp_stix, spix=out.vrnt_chrgrp_spix,
+                                   len=out.vrnt_chrgrp_len), coords=coords)
+        if not ok or not raw_ok(out, P, out_phased):
+            continue
+        S = judge_state(ctx, out, "%s result (%s)" % (pname, icls), P, out_phased, icls, g, W, ["%s(invert=%s).genotype(phased)" % (pname, inv)],
+                        coords, clause=G, fam="genotyping")
+        results[(out_phased, inv)] = (S, site, icls)
+    # masked phased vs masked unphased (same invert): identical answers
+    for inv in (False, True):
+        if (True, inv) in results and (False, inv) in results:
+            SP, _, icls = results[(True, inv)]; SU, _, _ = results[(False, inv)]
+            judge_projection(ctx, SP, SU, None, icls, icls, dict(W, invert=inv), coords)
+
+
+FAMILIES = {"mat": (one_case, 7500, 200000), "hist": (one_history, 1300, 18000),
+            "derive": (one_derive, 1600, 24000), "gt": (one_gt, 700, 10000)}
 QUICK_TOTAL, THOROUGH_TOTAL = FAMILIES["mat"][1], FAMILIES["mat"][2]
 
 
